@@ -103,7 +103,8 @@ def run(ctx):
     ctx.add_tlc(vlib.run_tlc(ctx, FAM, "HealthChecker", "HealthChecker.cfg" if q else "HealthChecker_thorough.cfg", timeout=1500))
     ctx.add_tlc(vlib.run_tlc(ctx, FAM, "HealthCheckLoop", "HealthCheckLoop.cfg" if q else "HealthCheckLoop_thorough.cfg", timeout=600))
     for mod, cfg in (("HealthFlags", "HealthFlags_defect.cfg"), ("HealthChecker", "HealthChecker_defect1.cfg"),
-                     ("HealthChecker", "HealthChecker_defect2.cfg"), ("HealthCheckLoop", "HealthCheckLoop_defect.cfg")):
+                     ("HealthChecker", "HealthChecker_defect2.cfg"), ("HealthCheckLoop", "HealthCheckLoop_defect.cfg"),
+                     ("HealthCheckLoop", "HealthCheckLoop_defect2.cfg"), ("HealthCheckLoop", "HealthCheckLoop_defect3.cfg")):
         if vlib.run_tlc(ctx, FAM, mod, cfg, expect_ok=False)["ok"]:
             raise vlib.Inconclusive("%s does not reject %s: invariants are vacuous" % (mod, cfg))
 
@@ -122,7 +123,11 @@ def run(ctx):
                                  ["HealthChecker_cases_late.cfg"] if q else ["HealthChecker_cases_late.cfg", "HealthChecker_cases_late_thorough.cfg"],
                                  lcases, None if q else 40000, rng)
     with open(tcases, "a") as fh:
-        fh.write(open(lcases).read())
+        for ln in open(lcases):
+            if ln.strip() and json.loads(ln)["seq"][-1][:5] not in ("late2", "late3"):   # needs a following check: = "timeout"
+                fh.write(ln)
+            else:
+                nl -= 1
 
     # ---- 3. real executions
     binary = vlib.go_build("c16")
@@ -141,8 +146,8 @@ def run(ctx):
         ctx.notes.append("gate health.rmw never reached: interleavings were not forced (B3 coverage lost)")
     if summ["stalled"]:
         raise vlib.Inconclusive("health checker stopped reporting in %d cases (driver log %s):\n%s" % (summ["stalled"], tlog, vlib.tail(tlog, 10)))
-    if summ["noisy"] > max(5, summ["cases"] // 50):
-        raise vlib.Inconclusive("machine too noisy for the timer-based replay: %s" % summ)
+    if summ["late_deliveries"] and summ["late_deliveries_shifted"] * 2 > summ["late_deliveries"]:
+        raise vlib.Inconclusive("more than half of the late answers missed their position: %s" % summ)
 
     # ---- 4. trace validation = the verdict
     # flags: the writers are plain goroutines (flags) / writer 1 is the real active health checker (mix)
@@ -180,8 +185,10 @@ def run(ctx):
     def thr_fail(line, kind):
         st = span.get(line, 1)
         hist = evs[st - 1:line]
-        late = any(e.get("r", "").startswith("late") for e in hist[:-1] if e["ev"] == "check")
-        vlib.report_failure(ctx, "C16:thr:%s:%s" % ("after-late-answer" if late else "plain", kind), dict(line=line, history=hist))
+        # input class: plain sequence, or the position (HealthChecker.tla) of the last late answer let out before the failure
+        dl = [e for e in hist if e["ev"] == "deliver"]
+        cls = ("late%d" % dl[-1]["pos"]) if dl else "plain"
+        vlib.report_failure(ctx, "C16:thr:%s:%s" % (cls, kind), dict(line=line, history=hist))
     for line in sorted(mm):
         st = span.get(line, 1)
         if st in done_cases:
@@ -194,14 +201,17 @@ def run(ctx):
 
     ctx.cov["distinct_nontrivial"] = nf + nt + nl
     ctx.cov["cases"] = dict(flags=[nf, nf_total], thr_plain=[nt, nt_total], thr_late=[nl, nl_total])
-    ctx.cov["exhaustive"] = not (fs or ts or ls) and summ["noisy"] == 0
+    ctx.cov["exhaustive"] = not (fs or ts or ls)
     ctx.cov["rule"] = ("flags: every complete interleaving (at load/store granularity) of 2 writers x <=2 ops and 3 writers x 1 op "
                        "(thorough: up to 2x3 / 3x2), each writer on its own condition, every program and initial word, forced on real "
                        "hosts of one address; one reading of HealthFlag()/Health() after every step; the 2-writer cases whose writer 1 alternates are "
                        "run again with the real health checker (thresholds 1/1) as writer 1 (mix). thresholds: every result sequence "
-                       "of length 5 (thorough 7) over ok/fail/timeout x thresholds {0,1,2,3}^2 x initial words, and length 4 (5) with "
-                       "late answers, replayed through the real checker; one evaluation per callback")
-    ctx.assumptions += ["a check counts as answered in time when the scripted session returns at once and no scheduling stall > 8 ms was "
-                        "seen during the case (watchdog; stalled cases are re-run, not judged)",
-                        "timeout = the session does not answer within the configured 40 ms (never, or only during the next check)",
+                       "of length 5 (thorough 7) over ok/fail/timeout x thresholds {0,1,2,3}^2 x initial words, and every sequence of length 3 "
+                       "(thorough: 4, sampled) over ok/fail/timeout + late answers of a timed-out check at each of 4 positions (timer fired / "
+                       "timeout handled / next check started / next check handled) x thresholds {1,2,3}^2, replayed through the real "
+                       "checker, every step driven by the loop events; one evaluation per callback")
+    ctx.assumptions += ["a check counts as answered in time when the scripted session returns at once (a timeout timer that fires for it "
+                        "is held by the harness, so scheduling delays cannot turn it into a timeout)",
+                        "timeout = the session has not answered when the real 10 ms timer fires; a late answer is let out at the enumerated "
+                        "position, for position 0 (timer fired, signal not yet taken) either the answer or the timeout may count, never both",
                         "writers on the same condition are not interleaved (the gate identifies a writer by its condition)"]
